@@ -293,3 +293,23 @@ pub fn select(total: usize, want: usize, rng: &mut Rng) -> Vec<usize> {
     }
     set.into_iter().collect()
 }
+
+/// Every `stride`-th item of another pool (keeps closed pools small enough to be swept completely).
+pub struct StridePool {
+    pub inner: Box<dyn Pool>,
+    pub stride: usize,
+}
+impl Pool for StridePool {
+    fn name(&self) -> String {
+        format!("{}/stride{}", self.inner.name(), self.stride)
+    }
+    fn len(&self) -> usize {
+        self.inner.len() / self.stride
+    }
+    fn get(&self, i: usize) -> Option<Case> {
+        self.inner.get(i * self.stride)
+    }
+}
+pub fn stride(p: impl Pool + 'static, stride: usize) -> StridePool {
+    StridePool { inner: Box::new(p), stride }
+}
